@@ -19,6 +19,7 @@
 #include <unistd.h>
 #include <sys/socket.h>
 #include <sys/ioctl.h>
+#include <sys/wait.h>
 #include <iv.h>
 #include <iv_event.h>
 #include <iv_event_raw.h>
@@ -33,6 +34,7 @@ enum {
 	L_MULTI_DUE, L_CLEANUP, L_PWAIT2_FALLBACK, L_TASK_SELF_REREG, L_HANDLERLESS_FD, L_EQUAL_EXPIRY,
 	L_UNREG_TIMER_PENDING, L_LEVEL_REPEAT, L_M0, L_M1, L_M2, L_M3, L_FREE_IN_HANDLER, L_EV_FAIL,
 	L_RAW_IN_HANDLER_POST, L_FAR_TIMER, L_TFD_FALLBACK, L_PPOLL_FALLBACK,
+	L_RAW_BIG_BURST, L_RAW_SIGNAL_POST, L_RAW_CHILD_POST, L_RAW_PIPE, L_RAW_OLD_EVENTFD, L_RAW_1024_MULTIPLE,
 };
 
 /* ------------------------------------------------------------------ configuration */
@@ -50,7 +52,8 @@ static int64_t prev_wait_end = -1, last_wait_end = -1;   /* virtual time when th
 static int64_t entry_reading;  /* the thread's last clock reading when the current wait was entered */
 static int cfg_nfd, cfg_ntimer, cfg_ntask, cfg_nev, cfg_nraw;
 static long budget;
-static int profile;      /* 0 all, 1 fd, 2 timer, 3 task, 4 lifecycle(C07) */
+static int profile;      /* 0 all, 1 fd, 2 timer, 3 task, 4 lifecycle(C07), 5 raw events (C09) */
+static int cfg_eventfd_mode;   /* 0 eventfd2, 1 old eventfd (eventfd2 -> EINVAL), 2 pipe (both -> ENOSYS) */
 static int known_handlerless_excluded, known_evfail_excluded;
 static long forced_eintr_prim = -1, forced_eintr_k = -1;
 static int forced_fault_sys = -1, forced_fault_errno, forced_fault_from = 0, forced_fault_count = 1 << 30;
@@ -566,15 +569,37 @@ static void raw_do_unregister(int i)
 	if (!cfg_alloc_reuse) { memset(e->iv, 0x5A, sizeof *e->iv); free(e->iv); e->iv = NULL; }
 	else memset(e->iv, 0x5A, sizeof *e->iv);
 }
+static struct iv_event_raw *sig_target;
+static void sigusr2_poster(int sig) { (void)sig; if (sig_target) iv_event_raw_post(sig_target); }
 static void raw_do_post(int i)
 {
 	struct rwo *e = &rwos[i];
-	int n = 1 + (ch_n(4) == 0 ? ch_n(40) : 0);
-	vz_log("  raw%d post x%d", i, n); vz_hash_u(0xf00 + i);
+	static const int sizes[] = { 1, 1, 1, 2, 3, 40, 1023, 1024, 1025, 2048, 3072, 65536, 65537, 70000 };
+	int n = sizes[ch_n(profile == 5 ? 14 : 6)];
+	int how = ch_n(profile == 5 ? 4 : 8);     /* 0,3.. direct; 1 from a signal handler; 2 from a forked child */
 	if (cur_kind == KIND_RAW && cur_id == i) vz_label(L_RAW_IN_HANDLER_POST);
+	if (n > 1000) vz_label(L_RAW_BIG_BURST);
+	if (n % 1024 == 0) vz_label(L_RAW_1024_MULTIPLE);
 	e->posts_outstanding = 1;
-	for (int k = 0; k < n; k++) iv_event_raw_post(e->iv);
 	vz_label(L_RAW);
+	if (how == 1) {
+		vz_label(L_RAW_SIGNAL_POST);
+		if (n > 40) n = 40;
+		vz_log("  raw%d post x%d from a signal handler", i, n); vz_hash_u(0xf00 + i); vz_hash_u(n * 4 + 1);
+		sig_target = e->iv;
+		for (int k = 0; k < n; k++) raise(SIGUSR2);
+		sig_target = NULL;
+	} else if (how == 2) {
+		vz_label(L_RAW_CHILD_POST);
+		if (n > 3072) n = 3072;
+		vz_log("  raw%d post x%d from a forked child", i, n); vz_hash_u(0xf00 + i); vz_hash_u(n * 4 + 2);
+		pid_t pid = fork();
+		if (pid == 0) { for (int k = 0; k < n; k++) iv_event_raw_post(e->iv); _exit(0); }
+		if (pid > 0) { int st; while (waitpid(pid, &st, 0) < 0 && errno == EINTR) ; }
+	} else {
+		vz_log("  raw%d post x%d", i, n); vz_hash_u(0xf00 + i); vz_hash_u(n * 4);
+		for (int k = 0; k < n; k++) iv_event_raw_post(e->iv);
+	}
 }
 static void raw_cb(void *cookie)
 {
@@ -609,13 +634,14 @@ static void unregister_everything(void)
 enum act { A_NONE, A_FD_REG, A_FD_REG_TRY, A_FD_UNREG, A_FD_SET, A_FD_COOKIE, A_PEER_WRITE, A_PEER_READ, A_PEER_CLOSE,
 	A_SELF_READ, A_SELF_FILL, A_TIMER_REG, A_TIMER_UNREG, A_TASK_REG, A_TASK_UNREG, A_EV_REG, A_EV_UNREG, A_EV_POST,
 	A_RAW_REG, A_RAW_UNREG, A_RAW_POST, A_QUIT, A_BURN, A_FD_TRY_BAD, A_EV_REG_FAIL, A_UNREG_ALL, NACT };
-static const unsigned char weights[5][NACT] = {
+static const unsigned char weights[6][NACT] = {
 	/*            none reg try unr set cok pw  pr  pc  sr  sf  treg tunr kreg kunr ereg eunr epost rreg runr rpost quit burn bad evf all */
 	/* all  */ {   4,  6,  2,  6,  6,  1,  4,  2,  2,  5,  2,  6,   4,   5,   2,   3,   2,   4,    2,   2,   3,    1,   2,   1,  1,  1 },
 	/* fd   */ {   3,  8,  3,  6, 12,  2,  6,  4,  3,  8,  4,  2,   1,   1,   0,   0,   0,   0,    1,   1,   1,    0,   1,   1,  0,  0 },
 	/* timer*/ {   3,  2,  0,  1,  1,  0,  4,  0,  0,  3,  0, 14,   6,   3,   1,   0,   0,   0,    0,   0,   0,    0,   5,   0,  0,  0 },
 	/* task */ {   3,  3,  0,  2,  2,  0,  3,  0,  0,  3,  0,  4,   1,  14,   4,   1,   0,   2,    0,   0,   0,    0,   1,   0,  0,  0 },
 	/* life */ {   3,  4,  2,  5,  2,  0,  2,  0,  1,  3,  0,  4,   3,   4,   2,   4,   3,   3,    2,   2,   2,    3,   1,   3,  3,  2 },
+	/* raw  */ {   3,  2,  0,  1,  1,  0,  2,  0,  0,  2,  0,  3,   1,   2,   0,   1,   1,   1,    8,   4,  14,    0,   1,   0,  0,  0 },
 };
 
 static int pick_registered(int kind, int want_reg, int self_id)
@@ -716,6 +742,8 @@ static int hook_sysfault(int sys, unsigned long k)
 	if (sys == forced_fault_sys && (long)k >= forced_fault_from && (long)k < forced_fault_from + forced_fault_count) return forced_fault_errno;
 	if (sys == VKS_EPOLL_PWAIT2 && cfg_pwait2_err) { vz_label(L_PWAIT2_FALLBACK); return cfg_pwait2_err; }
 	if (sys == VKS_EVENTFD2 && ev_fail_armed) return EMFILE;
+	if (sys == VKS_EVENTFD2 && cfg_eventfd_mode >= 1) return cfg_eventfd_mode == 1 ? EINVAL : ENOSYS;
+	if (sys == VKS_EVENTFD && cfg_eventfd_mode >= 2) return ENOSYS;
 	if (sys == VKS_EPOLL_WAIT || sys == VKS_EPOLL_PWAIT2 || sys == VKS_POLL || sys == VKS_PPOLL) {
 		int prim = sys == VKS_EPOLL_WAIT ? VK_EPOLL_WAIT : sys == VKS_EPOLL_PWAIT2 ? VK_EPOLL_PWAIT2 : sys == VKS_POLL ? VK_POLL : VK_PPOLL;
 		if (forced_eintr_prim == prim && (long)vk_wait_count(prim) == forced_eintr_k) { vz_label(L_EINTR); return EINTR; }
@@ -899,6 +927,22 @@ static void hook_wait_error(struct vk_wait *w, int err)
 	}
 	last_wait_end = vk_now();
 }
+static void hook_io_pre(int is_write, int fd, size_t n)
+{
+	(void)n;
+	if (!is_write) return;
+	for (int i = 0; i < cfg_nraw; i++) {
+		if (!rwos[i].registered || rwos[i].iv->event_wfd != fd) continue;
+		int fl = fcntl(fd, F_GETFL);
+		if (!(fl & O_NONBLOCK)) {
+			struct pollfd p = { fd, POLLOUT, 0 };
+			__real_poll(&p, 1, 0);
+			if (!(p.revents & POLLOUT))
+				FAILP("C09", "post-would-block", "iv_event_raw_post writes to descriptor %d of raw event %d, which is in blocking mode and not writable: the poster would block", fd, i);
+			FAILP("C09", "post-on-blocking-descriptor", "iv_event_raw_post writes to descriptor %d of raw event %d, which is in blocking mode", fd, i);
+		}
+	}
+}
 static int hook_poll_is_probe(void) { return !in_main || depth > 0; }
 static void hook_tfd_set(int fd, int64_t deadline)
 {
@@ -931,7 +975,7 @@ static const char *mname[4] = { "epoll-timerfd", "epoll", "ppoll", "poll" };
 void target_run(void)
 {
 	const char *prof = vz_param("profile", "all");
-	profile = !strcmp(prof, "fd") ? 1 : !strcmp(prof, "timer") ? 2 : !strcmp(prof, "task") ? 3 : !strcmp(prof, "life") ? 4 : 0;
+	profile = !strcmp(prof, "fd") ? 1 : !strcmp(prof, "timer") ? 2 : !strcmp(prof, "task") ? 3 : !strcmp(prof, "life") ? 4 : !strcmp(prof, "raw") ? 5 : 0;
 	known_handlerless_excluded = vz_param_l("excl_handlerless", 0);
 	known_evfail_excluded = vz_param_l("excl_evfail", 0);
 	int big = vz_param_l("big", 0);
@@ -944,6 +988,10 @@ void target_run(void)
 	cfg_eintr_pct = (int[]){ 0, 0, 0, 8 }[ch_n(4)];
 	cfg_pwait2_err = (int[]){ 0, 0, 0, 0, ENOSYS, EPERM }[ch_n(6)];
 	cfg_cb_cost = (int64_t[]){ 0, 0, 150, 40000 }[ch_n(4)];
+	cfg_eventfd_mode = (profile == 5) ? (int[]){ 0, 1, 2, 2 }[ch_n(4)] : (int[]){ 0, 0, 0, 0, 0, 1, 2 }[ch_n(7)];
+	if (vz_param_l("eventfd_mode", -1) >= 0) cfg_eventfd_mode = vz_param_l("eventfd_mode", 0);
+	if (cfg_eventfd_mode == 1) vz_label(L_RAW_OLD_EVENTFD); else if (cfg_eventfd_mode == 2) vz_label(L_RAW_PIPE);
+	vz_hash_u(cfg_eventfd_mode);
 	if (vz_param_l("no_eintr", 0)) cfg_eintr_pct = 0;
 	if (vz_param_l("pwait2_err", -1) >= 0) cfg_pwait2_err = vz_param_l("pwait2_err", 0);
 	forced_eintr_prim = vz_param_l("eintr_prim", -1); forced_eintr_k = vz_param_l("eintr_k", -1);
@@ -963,7 +1011,8 @@ void target_run(void)
 	vk_reset();
 	vk_hooks.clock_incr = hook_clock_incr; vk_hooks.sysfault = hook_sysfault; vk_hooks.wait_entry = hook_wait_entry;
 	vk_hooks.wait_block = hook_wait_block; vk_hooks.quiescent = hook_quiescent; vk_hooks.wait_return = hook_wait_return;
-	vk_hooks.wait_error = hook_wait_error; vk_hooks.tfd_set = hook_tfd_set; vk_hooks.poll_is_probe = hook_poll_is_probe;
+	vk_hooks.wait_error = hook_wait_error; vk_hooks.tfd_set = hook_tfd_set; vk_hooks.poll_is_probe = hook_poll_is_probe; vk_hooks.io_pre = hook_io_pre;
+	{ struct sigaction sa; memset(&sa, 0, sizeof sa); sa.sa_handler = sigusr2_poster; sigaction(SIGUSR2, &sa, NULL); }
 	vk_active = 1;
 	iv_set_fatal_msg_handler(fatal_handler);
 
@@ -977,6 +1026,7 @@ void target_run(void)
 	int ticker = (profile == 2 || profile == 3) ? ch_n(2) : (ch_n(6) == 0);
 	for (rounds = 0; rounds < 2; rounds++) {
 		vz_log("setup (round %d):", rounds);
+		if (profile == 5 && rounds == 0) { raw_do_register(0); if (cfg_nraw > 1 && ch_n(2)) raw_do_register(1); }
 		if (ticker && rounds == 0 && fdos[0].ch_kind != 1) {
 			vz_log("  (ticker)");
 			fd_do_register(0, 0);
@@ -1017,6 +1067,7 @@ void target_run(void)
 	else if (!strncmp(p, "C03", 3)) nt = vz_has_label(L_READY_THEN_NOT) || vz_has_label(L_REUSE_READY);
 	else if (!strncmp(p, "C04", 3)) nt = vz_has_label(L_TFD_REARM) || vz_has_label(L_PAST_EXPIRY) || vz_has_label(L_REARM_HANDLER);
 	else if (!strncmp(p, "C06", 3)) nt = vz_has_label(L_TASK_REREG_BUSY) || vz_has_label(L_ZERO_DL_TFD);
+	else if (!strncmp(p, "C09", 3)) nt = vz_has_label(L_RAW_IN_HANDLER_POST) || (vz_has_label(L_RAW_BIG_BURST) && vz_has_label(L_RAW_PIPE)) || vz_has_label(L_RAW_SIGNAL_POST) || vz_has_label(L_RAW_CHILD_POST);
 	else if (!strncmp(p, "C07", 3)) nt = vz_has_label(L_QUIT) || vz_has_label(L_FAILED_REG) || vz_has_label(L_ZERO_VIA_CB);
 	else nt = callbacks_total > 3;
 	if (nt) vz_nontrivial();
